@@ -21,7 +21,9 @@ Record row := {
 
 Inductive body :=
 | Soak (spe : N) (ops : list op) (rows : list row)
-| Fan (kind : N) (n : nat) (timeout : bool) (evs : list fev)
+| Fan (kind : N) (n : nat) (timeout : bool)
+      (detect : bool)    (* the collector is told when every provider has failed (unblindProposal) *)
+      (evs : list fev)
       (returned : bool)  (* the call came back *)
       (ok : bool)        (* ... with an answer *)
       (nblocked : N).    (* goroutines of the function blocked on a channel send afterwards *)
@@ -49,14 +51,14 @@ Fixpoint soak_agrees (spe : N) (st : sys) (ops : list op) (rows : list row) : bo
   end.
 
 (* the code as it is now: capacity = number of providers, one receive *)
-Definition fan_model (n : nat) (timeout : bool) (evs : list fev) : fstate :=
-  scenario n (N.of_nat n) 1 timeout evs.
+Definition fan_model (n : nat) (timeout detect : bool) (evs : list fev) : fstate :=
+  scenario n (N.of_nat n) 1 timeout detect evs.
 
 Definition agree (c : case) : bool :=
   match c_body c with
   | Soak spe ops rows => soak_agrees spe init ops rows
-  | Fan _ n timeout evs returned ok nblocked =>
-      let s := fan_model n timeout evs in
+  | Fan _ n timeout detect evs returned ok nblocked =>
+      let s := fan_model n timeout detect evs in
       Bool.eqb returned (f_coll_done s) && Bool.eqb ok (f_recvd s =? 1) && (nblocked =? blocked s)
   end.
 
@@ -146,7 +148,7 @@ Fixpoint soak_ok (spe : N) (t : track) (prev_running : list N) (ops : list op) (
 Definition P_b (c : case) : bool :=
   match c_body c with
   | Soak spe ops rows => (0 <? spe) && soak_ok spe track0 [] ops rows
-  | Fan _ _ _ _ returned _ nblocked => returned && (nblocked =? 0)
+  | Fan _ _ _ _ _ returned _ nblocked => returned && (nblocked =? 0)
   end.
 
 Definition mismatches (cs : list case) : list N := failing_ids c_id agree cs.
